@@ -81,6 +81,24 @@ Theorem C14_sami_prefix_selection_refuted :
 Proof. exact sami_prefix_selection_refuted. Qed.
 Print Assumptions C14_sami_prefix_selection_refuted.
 
+(* how a <P> gets its language: an inline lang attribute decides (first two characters); a class decides only if
+   it declares a language - a layout-only or unknown class does NOT end the lookup, later attributes are consulted *)
+Theorem C14_find_lang_class_falls_through : forall name value rest styles,
+  str_eqb (lower name) (lit "lang") = false -> str_eqb (lower name) (lit "class") = true ->
+  (dict_get (lower value) styles = None \/ dict_get (lower value) styles = Some None) ->
+  find_lang ((name, value) :: rest) styles = find_lang rest styles.
+Proof. exact find_lang_class_falls_through. Qed.
+Print Assumptions C14_find_lang_class_falls_through.
+Theorem C14_find_lang_inline : forall name value rest styles,
+  str_eqb (lower name) (lit "lang") = true -> find_lang ((name, value) :: rest) styles = Some (firstn 2 value).
+Proof. exact find_lang_inline. Qed.
+Print Assumptions C14_find_lang_inline.
+Theorem C14_find_lang_class_with_lang : forall name value l rest styles,
+  str_eqb (lower name) (lit "lang") = false -> str_eqb (lower name) (lit "class") = true ->
+  dict_get (lower value) styles = Some (Some l) -> find_lang ((name, value) :: rest) styles = Some l.
+Proof. exact find_lang_class_with_lang. Qed.
+Print Assumptions C14_find_lang_class_with_lang.
+
 (* ---- SAMI write ----------------------------------------------------------------------------------------------- *)
 (* every paragraph goes to the end of a block with its own start or into a new block with its start;
    all other blocks and paragraphs stay where they were *)
@@ -126,6 +144,13 @@ Example C14_example_dfxp :
   dfxp_read (lit "und") (mkDfxp (Some (lit "es"))
      [(Some (lit "fr"), [(1000000, lit "f1")]); (None, [(1000000, lit "d1")]); (Some (lit "de"), [])])
   = [(lit "fr", [(1000000, lit "f1")]); (lit "es", [(1000000, lit "d1")]); (lit "de", [])].
+Proof. vm_compute. reflexivity. Qed.
+Example C14_example_class_without_lang :
+  sami_read (lit "und") [(lit "narrow", None); (lit "encc", Some (lit "en"))]
+    [mkP [(lit "class", lit "NARROW"); (lit "lang", lit "fr")] 1000 (lit "a");
+     mkP [(lit "class", lit "ENCC"); (lit "lang", lit "fr")] 1000 (lit "b");
+     mkP [(lit "class", lit "NARROW")] 2000 (lit "c")]
+  = [(lit "fr", [(1000000, lit "a")]); (lit "en", [(1000000, lit "b")]); (lit "und", [(2000000, lit "c")])].
 Proof. vm_compute. reflexivity. Qed.
 Example C14_example_sami_write :
   let cs := [(lit "en", [mkWcue 1000000 2000000 (lit "a1"); mkWcue 5000000 6000000 (lit "a2")]);
